@@ -1,8 +1,9 @@
 (* Props/C03.v -- C03: every specification-valid object is accepted and its content preserved.
    Only statements; proofs are in Proofs/Schema*.v.
 
-   FULL statement (the target; NOT yet proved -- the check's oracle and the correspondence of
-   Model/Schema.v carry the property meanwhile):
+   FULL statement (the target; proved below in the partial form spec_complete_partial, under the explicit
+   boolean coverage predicates class_complete / input_complete -- the check's oracle and the
+   correspondence of Model/Schema.v carry the rest):
 
      spec_complete :
        forall vr ev w sp pok sok cid j,
@@ -21,7 +22,8 @@
 From Coq Require Import NArith ZArith List String Bool.
 From V Require Import Base.UString Base.Json Model.SchemaTypes Model.PyBase Model.Schema
      Spec.StixValid Spec.SchemaRefine Gen.Tables Gen.SpecTables
-     Proofs.SchemaTables Proofs.SchemaComplete.
+     Proofs.SchemaTables Proofs.SchemaComplete
+     Proofs.SchemaCompKinds Proofs.SchemaCompObject Proofs.SchemaCompRun Proofs.SchemaCompC03.
 Import ListNotations.
 
 Theorem spec_refines_lib_modulo_failures :
@@ -51,3 +53,65 @@ Theorem clean_complete_partial :
     exists pv, clean_kind vr w rc rp ro k false false j = Ok (pv, false) /\ jsame k' j (encode true pv).
 Proof. intros. eapply kind_complete_sound; eauto. Qed.
 Print Assumptions clean_complete_partial.
+
+(* The same with the wider kind coverage of Proofs/SchemaComp*.v (identifiers, references, selectors,
+   timestamps, floats and lists of those), for values the library can represent (jin_ok: a timestamp
+   text denotes an instant, i.e. at most six fraction digits -- the rest is the known finding
+   C03-timestamp-more-than-six-fraction-digits; an integer given for a float is below 10^16).      *)
+Theorem clean_complete_partial_wide :
+  forall (vr : variant) (w sp : world) (pattern_ok : ver -> ustring -> bool)
+         (rc : ustring -> bool -> bool -> list (ustring * jvalue) -> result pval)
+         (rp : bool -> bool -> list (ustring * jvalue) -> result pval)
+         (ro : ver -> list (ustring * ustring) -> bool -> list (ustring * jvalue) -> result pval)
+         (k k' : pkind) (j : jvalue) (n : nat),
+    variant_complete vr = true -> spec_refines sp w = true ->
+    kind_complete2 k = true -> kind_accepts k k' = true ->
+    jin_ok k' j = true -> valid_kind sp pattern_ok n k' j = true ->
+    exists pv, clean_kind vr w rc rp ro k false false j = Ok (pv, false) /\ jsame k' j (encode true pv).
+Proof.
+  intros vr w sp pok rc rp ro k k' j n Hvr Hsr Hk Ha Hj Hv.
+  exact (kind_complete2_sound vr w sp pok rc rp ro Hvr Hsr k k' Hk Ha j n Hj Hv).
+Qed.
+Print Assumptions clean_complete_partial_wide.
+
+(* Object level, for ARBITRARY tables: the members of an object the specification's class accepts (any
+   validator fuel) are accepted by the strict constructor of the library's class without a custom flag;
+   every given property is stored with the same value (jsame); anything else stored is a property with a
+   default.  Partial: class_complete / input_complete are explicit boolean coverage predicates (classes
+   whose co-constraints and __init__ forms are covered; inputs that give no nested object, `extensions`
+   or `granular_markings` member).                                                                  *)
+Theorem spec_complete_partial :
+  forall (vr : variant) (ev : env) (w sp : world) pattern_ok selectors_ok cid mem m,
+    variant_complete vr = true -> env_complete ev = true -> spec_refines sp w = true ->
+    valid_obj sp pattern_ok (S m) cid (JObj mem) = true -> NoDup (map fst mem) ->
+    class_complete w sp cid = true ->
+    (forall c sc, find_class (wclasses w) cid = Some c -> find_class (wclasses sp) cid = Some sc ->
+                  input_complete c sc mem = true) ->
+    exists c sc inner dfl,
+      find_class (wclasses w) cid = Some c /\ find_class (wclasses sp) cid = Some sc /\
+      run vr ev w pattern_ok selectors_ok (S m) (RConstruct cid false false mem None) = Ok (PObject cid inner dfl false) /\
+      (forall k v, In (k, v) mem -> exists x s', alookup k inner = Some x /\ find_slot sc k = Some s' /\
+                                                 jsame (skind s') v (encode true x)) /\
+      (forall k x, alookup k inner = Some x -> alookup k mem = None ->
+                   exists s, find_slot c k = Some s /\ sdef s <> DNone).
+Proof. exact spec_complete_partial_gen. Qed.
+Print Assumptions spec_complete_partial.
+
+(* ... on the tables regenerated from /repo and the frozen specification (narrowed where
+   spec_refines_lib_modulo_failures says); lib_complete is the kernel-computed list of covered classes *)
+Theorem spec_complete_partial_generated_tables :
+  forall (vr : variant) (ev : env) pattern_ok selectors_ok cid mem m,
+    variant_complete vr = true -> env_complete ev = true ->
+    valid_obj spec_restricted pattern_ok (S m) cid (JObj mem) = true -> NoDup (map fst mem) ->
+    In cid lib_complete ->
+    (forall c sc, find_class (wclasses lib) cid = Some c -> find_class (wclasses spec_restricted) cid = Some sc ->
+                  input_complete c sc mem = true) ->
+    exists c sc inner dfl,
+      find_class (wclasses lib) cid = Some c /\ find_class (wclasses spec_restricted) cid = Some sc /\
+      run vr ev lib pattern_ok selectors_ok (S m) (RConstruct cid false false mem None) = Ok (PObject cid inner dfl false) /\
+      (forall k v, In (k, v) mem -> exists x s', alookup k inner = Some x /\ find_slot sc k = Some s' /\
+                                                 jsame (skind s') v (encode true x)) /\
+      (forall k x, alookup k inner = Some x -> alookup k mem = None ->
+                   exists s, find_slot c k = Some s /\ sdef s <> DNone).
+Proof. exact spec_complete_partial_lib. Qed.
+Print Assumptions spec_complete_partial_generated_tables.
